@@ -69,6 +69,11 @@ def main(argv=None):
 
     known, fixed = core.load_known(prop)
     known_sigs = sorted({k['signature'] for k in known})
+    # dev aid only (never set by registered commands): keep searching behind a finding
+    dev_skip = [x for x in os.environ.get('VERIF_EXTRA_KNOWN', '').split(',') if x]
+    if dev_skip:
+        print('DEV: suppressing signatures %s' % dev_skip)
+        known_sigs = sorted(set(known_sigs) | set(dev_skip))
     n_viol = 0
     lines = []
 
